@@ -24,7 +24,9 @@ from .. import pipe as P
 
 RULE = ("program = 3..12 globals of the kinds alias / distinct / comptime type / struct / enum / const / comptime global / fn / recursive pair / generic (comptime T, "
         "comptime n, identity) / type-returning generic + instantiation / fn alias, each referring to earlier ones with high probability, + main using every "
-        "otherwise unused global; layouts per program: canonical, 6 permutations (reversed, main first, main last, every user before what it uses, 2 random; "
+        "otherwise unused global; function bodies, main and struct fields also contain INLINE comptime blocks (array length with a store/read of the last "
+        "element and `.len`, comptime argument of a generic, argument of a type-returning generic in a type annotation) that call plain, self- and mutually "
+        "recursive functions and read consts; layouts per program: canonical, 6 permutations (reversed, main first, main last, every user before what it uses, 2 random; "
         "the extern prelude at the top or at the bottom), 4 partitions (random into 2, random into 3, by layer types/consts/functions, maximising cross-file "
         "edges; random entry file; in-file order random or canonical; imports of only the needed files or of all files). evaluations = layouts whose "
         "behaviour was compared (the canonical one against the python reference). non-trivial = layout in which at least one use textually precedes its "
@@ -349,6 +351,21 @@ def schedule_shape(d, entry):
     return tuple(shape)
 
 
+INLINE_CT = re.compile(r"[\[(,] ?comptime \{[^{}]*\}")
+
+
+def inline_ct_users(p):
+    """{global with an inline comptime block in its body or definition: the recursive functions that block calls}"""
+    rec = [g for g in p.order if p.kind[g] == "recfn"]
+    out = {}
+    for g in p.order:
+        if p.kind[g] in ("fn", "main", "struct"):
+            blocks = INLINE_CT.findall(G.PH.sub(lambda m: "@" + m.group(1) + "@", p.text[g]))
+            if blocks:
+                out[g] = {r for r in rec if any(f"@{r}@" in b for b in blocks)}
+    return out
+
+
 def run_program(arg):
     work, seed, idx, probe = arg
     rng = C.Rng(seed, 20_000_000 + idx)
@@ -361,7 +378,10 @@ def run_program(arg):
     files, entry, _ = render(p, canon_v)
     canon = Obs(os.path.join(base, "canon"), files, entry)
     res = {"idx": idx, "shape": p.shape(), "nglobals": len(p.order) - 1, "viol": [], "inconc": [], "evals": 0, "nontrivial": [], "facts": [], "sample": None,
-           "events": 0, "accepted_variants": 0}
+           "events": 0, "accepted_variants": 0, "inline_ct": 0, "inline_ct_rec": 0, "inline_ct_user_before_rec": 0}
+    users = inline_ct_users(p)
+    res["inline_ct"] = 1 if users else 0
+    res["inline_ct_rec"] = 1 if any(users.values()) else 0
     obs = []
     # the canonical layout itself
     if canon.infra:
@@ -412,6 +432,9 @@ def run_program(arg):
             continue
         res["evals"] += 1
         res["facts"].append((v["kind"], facts))
+        pos = {g: (k, i) for k, gs in v["files"].items() for i, g in enumerate(gs)}
+        if any(pos[u][0] != pos[r][0] or pos[u][1] < pos[r][1] for u, rs in users.items() for r in rs):
+            res["inline_ct_user_before_rec"] += 1
         if viol:
             res["viol"].append(viol)
             continue
@@ -477,6 +500,10 @@ def run(tier, seed):
         cnt["layouts_compiled"] += 1 + NPERM + NSPLIT
         cnt["layouts_agreeing_with_canonical"] += res["accepted_variants"]
         cnt["events_per_run_total"] += res["events"]
+        cnt["programs_with_inline_comptime_block"] = cnt.get("programs_with_inline_comptime_block", 0) + res["inline_ct"]
+        cnt["programs_with_inline_comptime_block_calling_recursive_fn"] = cnt.get("programs_with_inline_comptime_block_calling_recursive_fn", 0) + res["inline_ct_rec"]
+        cnt["layouts_with_inline_comptime_user_before_or_in_other_file_than_recursive_callee"] = \
+            cnt.get("layouts_with_inline_comptime_user_before_or_in_other_file_than_recursive_callee", 0) + res["inline_ct_user_before_rec"]
         if res["events"] and not [v for v in res["viol"] if v["key"] == "wrong_output"]:
             cnt["canonical_matching_python_reference"] += 1
         for kind, facts in res["facts"]:
